@@ -460,7 +460,7 @@ func init() {
 		ID: "C10", Level: "exploration",
 		Rule: "G1: EVERY unparenthesised chain of 1..5 (thorough: 6) binary operators over all 14 operators (13 + '|'), and every chain of <= 3 operators with a unary minus before every subset of operands: the engine's parse tree (hook VerifParseTree) must equal the reference XPath 1.0 parse (fully parenthesised rendering); G2: for every expression of a slice covering every token kind, every placement of {nothing, space, tab+newline} in the first 9 token gaps for which the reference tokenizer still yields the same token sequence must give the same parse tree (and the same values on T(<=2)); G4: every chain of 1..2 (thorough: 3 over 12 forms) operators x every assignment of 21 operand forms (number spellings `1.` `.5`, parenthesised, calls, literals, variables, *, @x, operator names as element names, paths, predicates, node tests, axes, QNames): same oracle as G1; G3: every abbreviated path of <= 3 steps vs its mechanical expansion: same parse tree, same node sequence on T(<=3) from every context; non-trivial = chains with >= 2 operators / placements that change the byte string; distinct = distinct strings",
 		Assumptions:    []string{"hand-written reference tokenizer and parser (XPath 1.0 EBNF + section 3.7 disambiguation rules)", "hook VerifParseTree renders what parse() returns"},
-		Budget:         budget(90*time.Second, 12*time.Minute),
+		Budget:         budget(180*time.Second, 12*time.Minute),
 		MinRefOutcomes: 1,
 		Spaces:         c10Spaces,
 	})
